@@ -46,18 +46,21 @@ Record variant := Variant {
   fix_order : bool;      (* the provider calls of one session reach the provider in the order they were issued *)
   fix_l2stop : bool;     (* the Stop of an l2gw session reads the l2gw stats segment like its Interims *)
   fix_prune : bool;      (* pruning an orphaned accounting entry closes it at the backend with a Stop *)
+  fix_presend : bool;    (* LastSent is persisted BEFORE the Interim request leaves (not only with its outcome) *)
   fix_ghost : bool       (* a late Accounting-Response - or a checkpoint write that was already on its way - leaves nothing
                             durable for a session released meanwhile (released flag: early return + delete after the write) *)
 }.
 (* V s o l: the first three repairs plus any subset of the later three (the proofs are uniform in s, o, l) *)
-Definition V (s o l p : bool) : variant := Variant true true true s o l p true.
-Definition Vg (s o l p : bool) : variant := Variant true true true s o l p false.   (* without fix_ghost *)
-Definition head : variant := V true false true true.    (* /repo HEAD *)
+Definition V (s o l p : bool) : variant := Variant true true true s o l p true true.
+(* without fix_presend: LastSent reaches the checkpoint only with the outcome of the request *)
+Definition Vq (s o l p : bool) : variant := Variant true true true s o l p false true.
+Definition Vg (s o l p : bool) : variant := Variant true true true s o l p true false.   (* without fix_ghost *)
+Definition head : variant := Vq true false true true.   (* /repo HEAD *)
 Definition before_5478db8 : variant := Vg true false true true.   (* HEAD before the ghost-checkpoint fix *)
 Definition before_7faf7f9 : variant := V true false true false.   (* HEAD before the stop-on-prune fix *)
 Definition repaired : variant := V true true true true.
 Definition before_9b87063 : variant := V false false false false.   (* HEAD before the sent-floor and l2gw-stop fixes *)
-Definition defective : variant := Variant false false false false false false false false.   (* the code as first found *)
+Definition defective : variant := Variant false false false false false false false false false.   (* the code as first found *)
 
 (* AccountingSession: the fields the property depends on *)
 Record sess := Sess {
@@ -157,6 +160,8 @@ Inductive sev :=
 | ETick (sn : snaps) (ok : bool)  (* the session's bucket fires; ok = Accounting-Response received *)
 | EAck                            (* the Accounting-Response of an Interim sent earlier ([ETick _ false] = "no response
                                      yet") arrives late: advanceLastReported to the value sent, checkpoint *)
+| ENack                           (* the request of an Interim sent earlier ([ETick _ false]) fails for good (timeout / error
+                                     returned): checkpointAcctSession of the cached session (since 9b87063) *)
 | ELate (ok : bool)               (* the Accounting-Response (ok / failed) of an Interim whose session was RELEASED while it
                                      was outstanding arrives: sendAccountingUpdate finishes on the detached object and
                                      calls checkpointAcctSession *)
@@ -201,7 +206,9 @@ Definition lstep (v : variant) (g : bool) (s : sst) (ev : sev) : sst * list out 
             if ok then
               let e'' := Sess (ifx e') (hfx e') c (hw e') (base e') (prior e') (pending e') in   (* advanceLastReported *)
               (Sst true (Some e'') (Some e'') (orph s), [Interim c true])              (* + checkpoint *)
-            else (Sst true (Some e') (if fix_sent v then Some e' else db s) (orph s), [Interim c false])
+            else (* no Accounting-Response (yet): the checkpoint is written now only with fix_presend; a FAILED response
+                    writes it when it arrives ([ENack]) *)
+                 (Sst true (Some e') (if fix_sent v && fix_presend v then Some e' else db s) (orph s), [Interim c false])
         | None => (s, [])
         end
       else (s, [])
@@ -209,6 +216,11 @@ Definition lstep (v : variant) (g : bool) (s : sst) (ev : sev) : sst * list out 
       match cache s with
       | Some e => let e'' := Sess (ifx e) (hfx e) (floor v e) (hw e) (base e) (prior e) (pending e) in
                   (Sst (inb s) (Some e'') (Some e'') (orph s), [])
+      | None => (s, [])
+      end
+  | ENack =>
+      match cache s with
+      | Some e => if fix_sent v then (Sst (inb s) (Some e) (Some e) (orph s), []) else (s, [])
       | None => (s, [])
       end
   | ELate ok =>
@@ -266,6 +278,7 @@ Inductive gev :=
 | GReleased (j : nat) (sn : snaps)
 | GTick (b : N) (fails : list nat) (sn : snaps)     (* ProcessAccountingBucket b *)
 | GAck (j : nat)                                     (* late Accounting-Response for session j's Interim *)
+| GNack (j : nat)                                    (* the outstanding Interim request of session j failed *)
 | GLate (j : nat) (ok : bool)                        (* late response for session j's detached object *)
 | GRestart
 | GPrune (past : bool).
@@ -283,6 +296,7 @@ Definition project (bk : list N) (j : nat) (g : gev) : option sev :=
       | None => None
       end
   | GAck k => if Nat.eqb j k then Some EAck else None
+  | GNack k => if Nat.eqb j k then Some ENack else None
   | GLate k ok => if Nat.eqb j k then Some (ELate ok) else None
   | GRestart => Some ERestart
   | GPrune past => Some (EPrune past)
@@ -350,6 +364,9 @@ Definition mon_step (fs fp : bool) (m : mst) (ev : sev) (o : list out) : option 
               else Some m
       | _ => None
       end
+  | ENack => match o with
+             | [] => if m_open m && fs then Some (Mst true true (m_pend m) (m_ack m) (m_sent m)) else Some m
+             | _ => None end
   | ELate _ => match o with [] => Some m | _ => None end
   | ERestart =>
       match o with
